@@ -30,6 +30,7 @@ type opJ struct {
 	N      int    `json:"n,omitempty"`
 	Off    int64  `json:"off,omitempty"`
 	Whence int    `json:"whence,omitempty"`
+	Under  string `json:"under,omitempty"` // enc: the underlying file's next ReadAt ends early: "eof" (half + io.EOF) | "err" (half + error)
 }
 
 type visoCaseJ struct {
